@@ -100,6 +100,12 @@ pub fn worker(scn: &dyn Scenario, seed: u64, tier: Tier, start: u64, stride: u64
     let mut i = start;
     while i < end {
         sim::CURRENT_INDEX.store(i, Ordering::Relaxed);
+        {
+            // which plan is in flight, should this process die
+            let mut lock = out.lock();
+            let _ = writeln!(lock, "B {}", i);
+            let _ = lock.flush();
+        }
         let plan = scn.generate(seed, i, tier);
         let o = scn.execute(&plan);
         sim::CURRENT_INDEX.store(u64::MAX, Ordering::Relaxed);
@@ -149,6 +155,8 @@ pub struct Batch {
     pub cells: BTreeMap<String, u64>,
     pub violations: Vec<(u64, Violation)>,
     pub hangs: Vec<u64>,
+    /// plans during which the worker process died (abort, signal)
+    pub crashes: Vec<u64>,
     pub worker_failures: Vec<String>,
     pub wall_s: f64,
     pub stopped_early: bool,
@@ -209,6 +217,7 @@ pub fn run_batch(
     drop(tx);
     let mut done = 0;
     let mut finished_ok = vec![false; jobs];
+    let mut in_flight: Vec<Option<u64>> = vec![None; jobs];
     let mut killed = false;
     while done < jobs {
         let msg = match rx.recv_timeout(Duration::from_millis(500)) {
@@ -233,7 +242,9 @@ pub fn run_batch(
                 let tag = it.next().unwrap_or("");
                 let rest = it.next().unwrap_or("");
                 match tag {
+                    "B" => in_flight[j] = rest.trim().parse().ok(),
                     "R" => {
+                        in_flight[j] = None;
                         let f: Vec<&str> = rest.split(' ').collect();
                         if f.len() >= 6 {
                             let idx: u64 = f[0].parse().unwrap_or(0);
@@ -296,15 +307,22 @@ pub fn run_batch(
         if !finished_ok[j] && !killed {
             if code == Some(3) {
                 // hang: reported through an H line; the rest of this shard was not run
+            } else if let Some(idx) = in_flight[j] {
+                // the process died inside a run (abort after a panic in a destructor, signal)
+                b.crashes.push(idx);
             } else {
                 b.worker_failures
                     .push(format!("worker {} ended with {:?} before its summary", j, code));
             }
         }
     }
+    if b.crashes.len() > 8 {
+        b.stopped_early = true;
+    }
     // a worker that stopped at a hang leaves the rest of its shard unexplored: run it
-    if !b.hangs.is_empty() && !killed {
-        let hangs = b.hangs.clone();
+    if (!b.hangs.is_empty() || !b.crashes.is_empty()) && !killed && !b.stopped_early {
+        let mut hangs = b.hangs.clone();
+        hangs.extend(b.crashes.iter());
         for h in hangs {
             let shard = (h - start) % jobs as u64;
             let next = h + jobs as u64;
@@ -346,12 +364,16 @@ fn run_shard(
         .expect("spawn worker");
     let text = String::from_utf8_lossy(&out.stdout);
     let mut hang = None;
+    let mut flying: Option<u64> = None;
+    let mut summary = false;
     for line in text.lines() {
         let mut it = line.splitn(2, ' ');
         let tag = it.next().unwrap_or("");
         let rest = it.next().unwrap_or("");
         match tag {
+            "B" => flying = rest.trim().parse().ok(),
             "R" => {
+                flying = None;
                 let f: Vec<&str> = rest.split(' ').collect();
                 if f.len() >= 6 {
                     let idx: u64 = f[0].parse().unwrap_or(0);
@@ -379,6 +401,7 @@ fn run_shard(
             }
             "H" => hang = rest.trim().parse::<u64>().ok(),
             "S" => {
+                summary = true;
                 if let Ok(v) = serde_json::from_str::<Value>(rest) {
                     for (k, n) in v["counters"].as_object().into_iter().flatten() {
                         *b.counters.entry(k.clone()).or_insert(0) += n.as_u64().unwrap_or(0);
@@ -389,6 +412,15 @@ fn run_shard(
                 }
             }
             _ => {}
+        }
+    }
+    if hang.is_none() && !summary {
+        if let Some(c) = flying {
+            b.crashes.push(c);
+            if c + stride < end {
+                let sub = run_shard(scn, seed, tier, c + stride, stride, end, 0);
+                merge(&mut b, sub);
+            }
         }
     }
     if let Some(h) = hang {
@@ -422,6 +454,11 @@ fn merge(a: &mut Batch, b: Batch) {
             a.hangs.push(h);
         }
     }
+    for h in b.crashes {
+        if !a.crashes.contains(&h) {
+            a.crashes.push(h);
+        }
+    }
     a.worker_failures.extend(b.worker_failures);
 }
 
@@ -436,6 +473,9 @@ pub struct ExecResult {
     pub crashed: bool,
     #[serde(default)]
     pub trace: Vec<Value>,
+    /// the process died: location of the first panic it reported
+    #[serde(default)]
+    pub abort_site: Option<String>,
 }
 
 pub const HANG_KEY: &str = "no-progress";
@@ -452,7 +492,8 @@ pub fn exec_in_child(scenario: &str, plan: &Value, with_trace: bool, budget_s: u
         cmd.arg("--trace");
     }
     cmd.env("VERIF_WATCHDOG_S", budget_s.to_string());
-    let out = cmd.stdin(Stdio::null()).stderr(Stdio::null()).output();
+    cmd.env("VERIF_PANIC_SITES", "1");
+    let out = cmd.stdin(Stdio::null()).stderr(Stdio::piped()).output();
     let _ = std::fs::remove_file(&path);
     let out = match out {
         Ok(o) => o,
@@ -462,6 +503,7 @@ pub fn exec_in_child(scenario: &str, plan: &Value, with_trace: bool, budget_s: u
                 hang: false,
                 crashed: true,
                 trace: vec![],
+                abort_site: None,
             }
         }
     };
@@ -471,6 +513,7 @@ pub fn exec_in_child(scenario: &str, plan: &Value, with_trace: bool, budget_s: u
             hang: true,
             crashed: false,
             trace: vec![],
+            abort_site: None,
         };
     }
     let text = String::from_utf8_lossy(&out.stdout);
@@ -481,11 +524,29 @@ pub fn exec_in_child(scenario: &str, plan: &Value, with_trace: bool, budget_s: u
             }
         }
     }
+    let err = String::from_utf8_lossy(&out.stderr);
+    let site = err
+        .lines()
+        .find_map(|l| l.strip_prefix("PANIC-SITE "))
+        .map(|l| match l.rsplit_once("registry/src/") {
+            // drop the registry directory name, keep crate-version/path:line
+            Some((_, rest)) => rest.split_once('/').map(|x| x.1).unwrap_or(rest).to_string(),
+            None => l.rsplit("/repo/").next().unwrap_or(l).to_string(),
+        });
     ExecResult {
         outcome: None,
         hang: false,
         crashed: true,
         trace: vec![],
+        abort_site: Some(site.unwrap_or_else(|| "unknown".into())),
+    }
+}
+
+pub fn abort_key(r: &ExecResult) -> Option<String> {
+    if r.crashed {
+        Some(format!("abort@{}", r.abort_site.clone().unwrap_or_else(|| "unknown".into())))
+    } else {
+        None
     }
 }
 
@@ -536,6 +597,7 @@ pub fn exec_main(path: &str, with_trace: bool, echo: bool) -> i32 {
         hang: false,
         crashed: false,
         trace,
+        abort_site: None,
     };
     println!("O {}", serde_json::to_string(&r).unwrap());
     0
@@ -544,6 +606,9 @@ pub fn exec_main(path: &str, with_trace: bool, echo: bool) -> i32 {
 fn violates(r: &ExecResult, property: &str, key: &str) -> bool {
     if key == HANG_KEY {
         return r.hang;
+    }
+    if key.starts_with("abort@") {
+        return abort_key(r).as_deref() == Some(key);
     }
     r.outcome
         .as_ref()
@@ -942,6 +1007,25 @@ pub fn run_check(def: &CheckDef, tier: Tier, seed: u64, scale: f64) -> CheckResu
                     detail: "run makes no progress (wall-clock watchdog)".into(),
                 },
             ));
+        }
+        for c in &b.crashes {
+            // find out where it dies: re-execute the plan in a child and read its last words
+            let plan = scn.generate(seed, *c, tier);
+            let r = exec_in_child(name, &plan, false, 20);
+            match abort_key(&r) {
+                Some(key) => viols.push((
+                    *c,
+                    Violation {
+                        property: "C09".to_string(),
+                        key,
+                        detail: "the process running the endpoint aborted (panic while panicking)".into(),
+                    },
+                )),
+                None => harness_problems.push(format!(
+                    "{} index {}: worker died but the plan does not crash in a fresh process",
+                    name, c
+                )),
+            }
         }
         viols.sort_by_key(|(i, _)| *i);
         for (idx, v) in viols {
